@@ -320,7 +320,7 @@ def _r5(ctx):
     for fi_ in prog.methods_of(stc, inherited=False).values():
         for c_ in calls_in(fi_.node):
             if isinstance(c_.func, ast.Attribute) and c_.func.attr in ("sort_values", "argsort") and \
-                    any(is_self_attr(x_, dattr) for x_ in ast.walk(c_.func.value)):
+                    any(is_self_attr(x_, dattr) for x_ in ast.walk(inline_single_defs(fi_.node, c_.func.value))):
                 sorts.append((fi_, c_))
     if not sorts:
         raise AnalysisError("_SegmentTransformer: no sort of the distances found")
